@@ -875,7 +875,154 @@ fn check_written(c: &mut Case, t: &Table, w: &[u8], reference_len: usize) -> Opt
     Some(fc)
 }
 
-fn check_table(c: &mut Case, t: &Table, m: &Meta, rng: &mut Rng, file: &Path) {
+
+// --------------------------------------------------------------- writer histories ----
+// `write_records` is an operation on a caller-supplied stream, and one writer can be asked to write more than once.
+// Whatever happened on the stream before, "writing the records and parsing them back" speaks about the table written
+// last: the stream must start with it, and - unless longer content was there before - be exactly as long as the size
+// law says. `out` is the result of one write on a fresh stream, already compared with the model by the caller.
+
+const HISTORY_SHAPES: [&str; 6] = ["twice-same", "smaller-then-full", "positioned-at-end-of-old-table", "positioned-inside-old-table", "positioned-past-end-of-empty-stream", "file-parsed-then-rewritten"];
+
+#[allow(clippy::too_many_arguments)]
+fn check_writer_histories(c: &mut Case, t: &Table, m: &Meta, schema: &Schema, src: &RecordSet, out: &[u8], it: &mut Interner, rs: &mut Rng, file: &Path) {
+    let n = t.recs.len();
+    // the "old" table: same schema, the first half of the records (written by the independent encoder, read by the library)
+    let old_t = Table { fields: t.fields.clone(), key: t.key, recs: t.recs[..n / 2].to_vec() };
+    let old_enc = encode(&old_t, "dedup", rs);
+    let old_rs = match trap(|| DbcParser::parse_bytes(&old_enc.bytes).and_then(|p| p.with_schema(schema.clone())).and_then(|p| p.parse_records())) {
+        Ok(Ok(x)) => x,
+        _ => {
+            c.count("writer_histories_skipped|old-table-unreadable", 1);
+            return;
+        }
+    };
+    // what one write of the old table leaves on a fresh stream (prior content of the two-write history)
+    let old_out_len = {
+        let mut sink = Cursor::new(Vec::new());
+        match trap(|| {
+            let w = DbcWriter::new(&mut sink);
+            let mut w = if m.explicit_writer_schema { w.with_schema(schema.clone()) } else { w };
+            w.write_records(&old_rs)
+        }) {
+            Ok(Ok(())) => sink.into_inner().len(),
+            _ => {
+                c.count("writer_histories_skipped|old-table-unwritable", 1);
+                return;
+            }
+        }
+    };
+    let shapes: Vec<&'static str> = if n <= 300 {
+        HISTORY_SHAPES.to_vec()
+    } else {
+        let a = rs.usize(HISTORY_SHAPES.len());
+        let b = (a + 1 + rs.usize(HISTORY_SHAPES.len() - 1)) % HISTORY_SHAPES.len();
+        vec![HISTORY_SHAPES[a], HISTORY_SHAPES[b]]
+    };
+    for shape in shapes {
+        c.count(&format!("writer_histories|{shape}"), 1);
+        // run the history; yields (final stream, length of the content that was on the stream before the last write)
+        let run: Result<wow_cdbc::Result<(Vec<u8>, usize)>, PanicInfo> = match shape {
+            "twice-same" => trap(|| {
+                let mut sink = Cursor::new(Vec::new());
+                {
+                    let w = DbcWriter::new(&mut sink);
+                    let mut w = if m.explicit_writer_schema { w.with_schema(schema.clone()) } else { w };
+                    w.write_records(src)?;
+                    w.write_records(src)?;
+                }
+                Ok((sink.into_inner(), out.len()))
+            }),
+            "smaller-then-full" => trap(|| {
+                let mut sink = Cursor::new(Vec::new());
+                {
+                    let w = DbcWriter::new(&mut sink);
+                    let mut w = if m.explicit_writer_schema { w.with_schema(schema.clone()) } else { w };
+                    w.write_records(&old_rs)?;
+                    w.write_records(src)?;
+                }
+                Ok((sink.into_inner(), old_out_len))
+            }),
+            "positioned-at-end-of-old-table" | "positioned-inside-old-table" | "positioned-past-end-of-empty-stream" => {
+                let prior: Vec<u8> = if shape == "positioned-past-end-of-empty-stream" { Vec::new() } else { old_enc.bytes.clone() };
+                let pos: u64 = match shape {
+                    "positioned-at-end-of-old-table" => prior.len() as u64,
+                    "positioned-inside-old-table" => 1 + rs.below(prior.len() as u64 - 1),
+                    _ => 1 + rs.below(64),
+                };
+                let plen = prior.len();
+                trap(move || {
+                    let mut sink = Cursor::new(prior);
+                    sink.set_position(pos);
+                    {
+                        let w = DbcWriter::new(&mut sink);
+                        let mut w = if m.explicit_writer_schema { w.with_schema(schema.clone()) } else { w };
+                        w.write_records(src)?;
+                    }
+                    Ok((sink.into_inner(), plen))
+                })
+            }
+            _ => {
+                // a file opened read+write, looked at through the parser (which leaves the handle wherever it stopped reading),
+                // then rewritten through the same handle
+                let f2 = file.with_extension("hist.dbc");
+                if let Err(e) = std::fs::write(&f2, &old_enc.bytes) {
+                    c.inconclusive(format!("cannot write scratch file: {e}"));
+                    continue;
+                }
+                let plen = old_enc.bytes.len();
+                let r = trap(|| {
+                    let mut f = std::fs::OpenOptions::new().read(true).write(true).open(&f2)?;
+                    let seen = DbcParser::parse(&mut f)?;
+                    let _ = seen.header().record_count;
+                    {
+                        let w = DbcWriter::new(&mut f);
+                        let mut w = if m.explicit_writer_schema { w.with_schema(schema.clone()) } else { w };
+                        w.write_records(src)?;
+                    }
+                    drop(f);
+                    Ok((std::fs::read(&f2)?, plen))
+                });
+                let _ = std::fs::remove_file(&f2);
+                r
+            }
+        };
+        let path = format!("rewrite-{shape}");
+        let Some((stream, prior_len)) = stage(c, &path, "write_records", "", run) else { continue };
+        c.count("writer_history_streams_checked", 1);
+        // the size law for the table written last (prior content that was longer stays behind it: the writer does not truncate)
+        let want_len = out.len().max(prior_len);
+        if stream.len() != want_len {
+            c.violate(
+                format!("written-size|history={shape}"),
+                format!("after the history `{shape}` the stream is {} bytes; the table written last takes {} bytes (20 + {n} records x {} + string block) and {prior_len} bytes were on the stream before", stream.len(), out.len(), t.record_size()),
+                json!({"history": shape, "stream_len": stream.len(), "table_len": out.len(), "prior_len": prior_len}),
+            );
+        }
+        if stream.len() >= out.len() && stream[..out.len()] == *out {
+            c.count("writer_history_streams_start_with_table", 1);
+            continue;
+        }
+        // not the bytes of a single write: still fine if the stream parses back to the table
+        let r = trap(|| DbcParser::parse_bytes(&stream).and_then(|p| p.with_schema(schema.clone())).and_then(|p| p.parse_records()));
+        if let Some(back) = stage(c, &path, "reparse", "", r) {
+            let proj: Vec<Vec<MV>> = back.records().iter().map(|r| project(r, &Src::Set(&back), it)).collect();
+            let name: &'static str = match shape {
+                "twice-same" => "rewrite-twice-same",
+                "smaller-then-full" => "rewrite-smaller-then-full",
+                "positioned-at-end-of-old-table" => "rewrite-positioned-at-end-of-old-table",
+                "positioned-inside-old-table" => "rewrite-positioned-inside-old-table",
+                "positioned-past-end-of-empty-stream" => "rewrite-positioned-past-end-of-empty-stream",
+                _ => "rewrite-file-parsed-then-rewritten",
+            };
+            if cmp_model(c, name, t, &proj) {
+                c.count("writer_history_streams_equivalent_not_identical", 1);
+            }
+        }
+    }
+}
+
+fn check_table(c: &mut Case, t: &Table, m: &Meta, rng: &mut Rng, rs_lane: &mut Rng, file: &Path) {
     let enc = encode(t, m.layout, rng);
     let n = t.recs.len();
     c.nontrivial = n > 0;
@@ -1132,6 +1279,10 @@ fn check_table(c: &mut Case, t: &Table, m: &Meta, rng: &mut Rng, file: &Path) {
                 let proj: Vec<Vec<MV>> = rs.records().iter().map(|r| project(r, &Src::Set(&rs), &mut it)).collect();
                 if finish_path(c, "rewrite", false, proj, &mut results, &mut eager_proj) {
                     rewrite_rs = Some(rs);
+                    // the single write is right: now the same writer inside longer histories
+                    if written_fc == Some(t.column_count()) {
+                        check_writer_histories(c, t, m, &schema, src, &out, &mut it, rs_lane, file);
+                    }
                 } else {
                     // lookups on a record set already known to differ from the table would only repeat that finding
                     c.count("key_lookups_skipped|rewrite-ne-model", 1);
@@ -1235,8 +1386,9 @@ fn main() {
         }
         let class = if idx < nfixed { format!("fixed{idx}|{}", meta.class(&t)) } else { meta.class(&t) };
         let file = scratch.join(format!("c17-{idx}.dbc"));
+        let mut rs_lane = run.rng(idx, 1);
         run.case(idx, &class, desc, |c| {
-            check_table(c, &t, &meta, &mut rng, &file);
+            check_table(c, &t, &meta, &mut rng, &mut rs_lane, &file);
             let _ = std::fs::remove_file(&file);
         });
     }
